@@ -24,9 +24,9 @@ func init() {
 func runC02(c *Ctx, r *Report, tier string) {
 	r.Rule("FUNNEL", "who calls parseOption and Option.Set; the value handed to Set on the argument path", 6)
 	r.Rule("UNQUOTE", "unquoteIfPossible only in parseOption, after the merge, guarded only by the unquote tag; Set(&arg) cannot bypass it", 4)
-	r.Rule("ADMISSIBLE", "argument vetting only for the separate-token form", 2)
+	r.Rule("ADMISSIBLE", "argument vetting only for the separate-token form; refusal only by the validator or (PassDoubleDash) the terminator", 4)
 	r.Rule("SPLIT", "split at the first '='; name/argument slices; long: pos ≥ 0, short: pos == width of the first character", 4)
-	r.Rule("RUNES", "short names are handled as runes with their encoded width", 5)
+	r.Rule("RUNES", "short names are handled as runes with their encoded width; the token is split exactly when the first rune is an argument-taking option followed by more bytes", 8)
 	r.Rule("CLUSTER", "attached argument only for the first option; next token only for the last, non-optional one", 3)
 	r.Rule("NEGATIVE", "negative-number exception: all layers unwrapped; '-' followed by a digit", 3)
 
@@ -205,10 +205,21 @@ func runC02(c *Ctx, r *Report, tier string) {
 
 	// RUNES
 	sn := c.fname(ssc)
+	wTerm, lTerm := "call:unicode/utf8.DecodeRuneInString(P2)#1", "len(P2)"
+	optTerm := "lookup(lookup.shortNames(&parseState.lookup(P1)), conv[string](call:unicode/utf8.DecodeRuneInString(P2)#0))"
 	for _, ret := range returnsOf(ssc) {
 		t0 := c.term(ret.Results[0])
 		if t0 == "P2" {
+			// the token is left whole only for one of the three documented reasons (or because it is at most one byte long)
+			reasons := anyLit(litEq(wTerm, lTerm, true), litIs("nonnil("+optTerm+")", false), litIs("call:(*Option).canArgument("+optTerm+")", false),
+				litEq("len(P2)", "1", true), litEq("len(P2)", "0", true), litIs("lt(len(P2), 2)", true), litIs("lt(1, len(P2))", false))
+			path, g := c.Requires(ssc, isInstr(ret), reasons, nil)
+			r.Check(g, "RUNES", sn, "left whole only when single-rune, unknown, or not argument-taking", c.ipos(ret), "REQ(width == len ∨ option == nil ∨ ¬canArgument())", "the concatenated argument of an argument-taking short option is not split off on the path "+pathStr(path))
 			continue
+		}
+		{
+			path, g := c.Requires(ssc, isInstr(ret), anyLit(litEq(wTerm, lTerm, false), litIs("lt("+wTerm+", "+lTerm+")", true)), nil)
+			r.Check(g, "RUNES", sn, "split only when something follows the first rune", c.ipos(ret), "REQ(width of the first rune ≠ len(optname))", "a lone multi-byte short option gets an empty attached argument: "+pathStr(path))
 		}
 		okF := t0 == "conv[string](call:unicode/utf8.DecodeRuneInString(P2)#0)"
 		okA := false
@@ -279,6 +290,17 @@ func runC02(c *Ctx, r *Report, tier string) {
 		_, a := c.Requires(po, isInstr(in), litIs("P4", true), pf)
 		_, b := c.Requires(po, isInstr(in), litHas(false, "nonnil(P5)"), pf)
 		r.Check(a && b, "CLUSTER", pon, "next token consumed only when allowed and no inline argument", c.ipos(in), "REQ(canarg) ∧ REQ(argument == nil)", fmt.Sprintf("canarg necessary=%v argument==nil necessary=%v", a, b))
+	}
+	// a popped token is refused only by the validator or, with PassDoubleDash, because it is the terminator
+	for _, popIn := range c.instrs(po, c.isCallTo("(*parseState).pop")) {
+		for _, in := range c.instrs(po, c.isCallTo("newErrorf", "newError")) {
+			call := in.(ssa.CallInstruction)
+			if c.term(call.Common().Args[0]) != "ErrExpectedArgument" || !c.reachableFrom(po, popIn, isInstr(in)) {
+				continue
+			}
+			c.reqRule(r, "ADMISSIBLE", po, in, "the separate-token argument is refused only by the validator or as the terminator under PassDoubleDash",
+				anyLit(litHas(true, "nonnil(call:(*Option).isValidValue("), litHas(true, "nonzero((Parser.Options(P0) & PassDoubleDash))")), "isValidValue(arg) != nil ∨ Options&PassDoubleDash != 0", nil)
+		}
 	}
 	// UNIT over the spelling functions
 	scope := map[*ssa.Function]bool{so: true, ssc: true, ps: true, po: true}
